@@ -496,7 +496,7 @@ Lemma read_scalar t : is_scalar t ->
   exists k, (1 <= k)%nat /\ forall b,
     read t b = if len b <? N.of_nat k then Err else Ok (VU (unbe (firstn k b)), skipn k b).
 Proof.
-  intros [ -> | [ -> | [ -> | -> ]]]; [exists 1%nat|exists 2%nat|exists 4%nat|exists 8%nat]; (split; [lia|reflexivity]).
+  intros [ -> | [ -> | [ -> | -> ]]]; [exists 1%nat|exists 2%nat|exists 4%nat|exists 8%nat]; (split; [lia|intro b; rewrite <- short_len; reflexivity]).
 Qed.
 Lemma nice_scalar t : is_scalar t -> nice t.
 Proof.
